@@ -154,6 +154,8 @@ func (c10) Gen(r *sim.Rand, tier string, run uint64) *sim.Scenario {
 			client := sim.PickInt(r, 0, 0, 0, 1, 1, 2, 3) // raw, bufio, io.Copy into the library's writer, source aliasing the image
 			if r.Chance(1, 8) {
 				client = 4 // whatever else the writer offers: io.WriterAt, io.StringWriter, io.ByteWriter
+			} else if r.Chance(1, 8) {
+				client = 5 // the same bytes the image already holds at that place
 			}
 			waux := int64(sim.PickInt(r, 0, 1, -1, -17, rem-l, rem-l+1, rem, -rem, r.Intn(rem+2)))
 			ops = append(ops, sim.Op{K: "write", N: []int64{int64(id), int64(client), waux, int64(r.Intn(3))}, B: r.Bytes(l)})
@@ -1079,6 +1081,13 @@ func (c c10) Exec(sc *sim.Scenario, env *sim.Env) (viol *sim.Violation) {
 			cw := checkedWriter{w, s}
 			if op.Arg(1) == 4 && !s.low {
 				w.optionalWriterOp(s, []byte(op.B), op.Arg(2), int(op.Arg(3)))
+				continue
+			}
+			if op.Arg(1) == 5 && !s.low && len(op.B) > 0 && s.pos+len(op.B) <= s.end {
+				// a patch applied a second time: the bytes written are the ones the image already
+				// holds there (the position moves on all the same)
+				st.Probe("write_of_what_is_already_there")
+				_, _ = cw.Write(append([]byte{}, w.model[s.pos:s.pos+len(op.B)]...))
 				continue
 			}
 			if op.Arg(1) == 3 && !s.low && len(op.B) > 1 {
